@@ -175,17 +175,20 @@ SeekLast(h) == IF Nd(h, h.root).n = 0 THEN NoCur ELSE LET lf == Rightmost(h, h.r
 CNext(h, c) == IF Lost(h, c) THEN SeekFirstGT(h, c.k) ELSE CNextRaw(h, c)
 CPrev(h, c) == IF Lost(h, c) THEN SeekLastLT(h, c.k) ELSE CPrevRaw(h, c)
 \* ---- Range / RangeReverse and the iterators
-OpenCur(h) == IF Dir = "fwd" THEN (IF LoT = "unb" THEN SeekFirst(h) ELSE IF LoT = "inc" THEN SeekFirstGE(h, LoK) ELSE SeekFirstGT(h, LoK))
-              ELSE (IF HiT = "unb" THEN SeekLast(h) ELSE IF HiT = "inc" THEN SeekLastLE(h, HiK) ELSE SeekLastLT(h, HiK))
+OpenCurD(dir, lot, lok, hit, hik, h) ==
+  IF dir = "fwd" THEN (IF lot = "unb" THEN SeekFirst(h) ELSE IF lot = "inc" THEN SeekFirstGE(h, lok) ELSE SeekFirstGT(h, lok))
+  ELSE (IF hit = "unb" THEN SeekLast(h) ELSE IF hit = "inc" THEN SeekLastLE(h, hik) ELSE SeekLastLT(h, hik))
+OpenCur(h) == OpenCurD(Dir, LoT, LoK, HiT, HiK, h)
 FarOK(k) == IF Dir = "fwd" THEN (HiT = "unb" \/ (HiT = "inc" /\ k <= HiK) \/ (HiT = "exc" /\ k < HiK))
             ELSE (LoT = "unb" \/ (LoT = "inc" /\ k >= LoK) \/ (LoT = "exc" /\ k > LoK))
 InB(k) == /\ (LoT = "unb" \/ (LoT = "inc" /\ k >= LoK) \/ (LoT = "exc" /\ k > LoK))
           /\ (HiT = "unb" \/ (HiT = "inc" /\ k <= HiK) \/ (HiT = "exc" /\ k < HiK))
 \* forwardIterator.Next / backwardIterator.Next: [res (0 = end, else the key), val, cur]
-IterStep(h, c) ==
-  LET c1 == IF Lost(h, c) THEN (IF Dir = "fwd" THEN SeekFirstGE(h, c.k) ELSE SeekLastLE(h, c.k)) ELSE c IN
+IterStepD(dir, h, c) ==
+  LET c1 == IF Lost(h, c) THEN (IF dir = "fwd" THEN SeekFirstGE(h, c.k) ELSE SeekLastLE(h, c.k)) ELSE c IN
   IF c1.node = Nil THEN [res |-> 0, val |-> 0, cur |-> c1]
-  ELSE [res |-> c1.k, val |-> Nd(h, c1.node).vals[c1.i], cur |-> IF Dir = "fwd" THEN CNext(h, c1) ELSE CPrev(h, c1)]
+  ELSE [res |-> c1.k, val |-> Nd(h, c1.node).vals[c1.i], cur |-> IF dir = "fwd" THEN CNext(h, c1) ELSE CPrev(h, c1)]
+IterStep(h, c) == IterStepD(Dir, h, c)
 \* ---- canonical node numbering: reachable nodes in pre-order, then (if it is not reachable any more) the node the
 \* cursor is parked in. Unreachable nodes are dropped - only the cursor can still refer to one. This identifies states
 \* that differ in allocation history only.
@@ -225,8 +228,6 @@ IterNext ==
 Next == Open \/ IterNext \/ (\E k \in CKeys : Put(k) \/ Del(k))
 Spec == Init /\ [][Next]_vars
 NotBad == ~pst.bad
-NoIter == ~itst.open
-Dbg == Len(H.nodes) <= 6 /\ \A i \in 1..Len(H.nodes) : Len(H.nodes[i].keys) <= 4
 \* the tree part agrees with the identity-free model's invariants
 SizeOK == H.size = Cardinality(KeySet(H))
 \* states are compared up to the numbering of node ids: drop gen (monotone) by keeping only "cursor is current"
